@@ -91,6 +91,10 @@ def mtl_backward(
     if len(features) == 0:
         raise ValueError("`features` cannot be empty.")
 
+    # Materialize the iterables first: they may be single-use iterators (e.g. `module.parameters()`).
+    shared_params = list(shared_params)
+    tasks_params = [list(task_params) for task_params in tasks_params]
+
     _check_no_overlap(shared_params, tasks_params)
     _check_losses_are_scalar(losses)
 
@@ -98,9 +102,6 @@ def mtl_backward(
         raise ValueError("`losses` cannot be empty")
     if len(losses) != len(tasks_params):
         raise ValueError("`losses` and `tasks_params` should have the same size.")
-
-    shared_params = list(shared_params)
-    tasks_params = [list(task_params) for task_params in tasks_params]
 
     # Check all parameters before any task transform accumulates into a .grad field.
     for params in [shared_params, *tasks_params]:
